@@ -1,10 +1,11 @@
 import HidVerif.Hid.TypecheckStmt
 import HidVerif.Proofs.Escape
+import HidVerif.Proofs.ParseFuel
 /-!
 # C10 — the compiler is total
 
 The front-end models are total Lean functions by construction (`Lex.lex`, and with explicit
-fuel `Parse.parse`); their agreement with the implementation on error *class and position* is
+fuel `Parse.parse`, which `parse_never_runs_out_of_fuel` shows is never exhausted); their agreement with the implementation on error *class and position* is
 the content of the `lex`/`parse`/`tc` suites.  Proved here: what rendering needs — every byte
 string that reaches an `.ascii` directive or a character immediate is accepted back by the
 assembler (C13's round trip), and the front end of the model never reports an internal error
@@ -25,11 +26,26 @@ theorem char_immediate_always_assemblable (b : Nat) (hb : b < 256) :
 theorem lex_total (src : List HidVerif.Hid.Lex.Line) : ∃ toks ending, HidVerif.Hid.Lex.lex src = (toks, ending) :=
   ⟨_, _, rfl⟩
 
-/-- the parser model returns a tree, a located lexer/parser error, or (never observed) fuel exhaustion -/
+/-- the explicit fuel of the parser model is always enough: the model never answers "out of fuel", for any
+source text whatsoever (the budget is `16·|tokens| + 64`; `Proofs/ParseFuel.lean` proves by induction that
+every parser of the grammar, given fuel `16·|remaining tokens| + c` for its own constant `c`, does not run
+out and consumes at least one token before it recurses) — so the recursion of the real coroutine parser,
+which this fuel stands in for, is bounded by a linear function of the number of tokens -/
+theorem parse_never_runs_out_of_fuel (src : List HidVerif.Hid.Lex.Line) :
+    HidVerif.Hid.Parse.parse src ≠ .error .fuel := HidVerif.Hid.Parse.parse_never_out_of_fuel src
+
+/-- the parser model is total in the strong sense: for every input it returns a tree or a *located* lexer
+or parser error — there is no fourth outcome -/
 theorem parse_total (src : List HidVerif.Hid.Lex.Line) :
-    (∃ p, HidVerif.Hid.Parse.parse src = .ok p) ∨ (∃ e, HidVerif.Hid.Parse.parse src = .error e) := by
+    (∃ p, HidVerif.Hid.Parse.parse src = .ok p) ∨ (∃ c, HidVerif.Hid.Parse.parse src = .error (.lexer c)) ∨
+      (∃ c, HidVerif.Hid.Parse.parse src = .error (.parser c)) := by
+  have hf := parse_never_runs_out_of_fuel src
   cases h : HidVerif.Hid.Parse.parse src with
   | ok p => exact Or.inl ⟨p, rfl⟩
-  | error e => exact Or.inr ⟨e, rfl⟩
+  | error e =>
+    cases e with
+    | lexer c => exact Or.inr (Or.inl ⟨c, rfl⟩)
+    | parser c => exact Or.inr (Or.inr ⟨c, rfl⟩)
+    | fuel => exact absurd h hf
 
 end HidVerif.Props.C10
